@@ -255,6 +255,13 @@ func (c *genCtx) gen(depth int, nn, incap bool) *Expr {
 			switch c.draw(0, 4, "parskind") {
 			case 0:
 				e.S = "R" // the rewinding kind (PTokR)
+				if rapid.Bool().Draw(c.t, "rewindshape") {
+					// a consumed token, an optional rewinding production, then a production that reads the lexer with
+					// Peek/Next: after a rewind over pending elided tokens it must still see the next real token
+					g := Group("?", e)
+					g.Style = c.draw(0, 5, "gstyle")
+					return Seq(c.capLeaf(), g, &Expr{Kind: KPars, Prod: -1, Uni: -1})
+				}
 			case 1:
 				if c.g.Profile == "" {
 					e.S = "N" // an embedded parser (PNest); its grammar is written for the stateful lexer profile
